@@ -129,9 +129,35 @@ func (t *tap) count() int {
 	return len(t.recs)
 }
 
-// pump copies length-prefixed packets from src to dst, recording them.
-func pump(t *tap, from, to int, src, dst net.Conn) {
-	defer dst.Close()
+// pipeDir is one direction of a tapped pipe; the harness can inject packets into it.
+type pipeDir struct {
+	from, to int
+	mu       sync.Mutex
+	dst      net.Conn
+}
+
+// write sends one framed packet to the destination (serialised with the pump).
+func (d *pipeDir) write(frame []byte) error {
+	d.mu.Lock()
+	defer d.mu.Unlock()
+	_, err := d.dst.Write(frame)
+	return err
+}
+
+// inject writes a harness-made packet into this direction.
+func (d *pipeDir) inject(pkt *floodsub.Packet) error {
+	body, err := pkt.MarshalVT()
+	if err != nil {
+		return err
+	}
+	hdr := make([]byte, 4)
+	binary.LittleEndian.PutUint32(hdr, uint32(len(body)))
+	return d.write(append(hdr, body...))
+}
+
+// pump copies length-prefixed packets from src to the direction's destination, recording them.
+func pump(t *tap, d *pipeDir, src net.Conn) {
+	defer d.dst.Close()
 	defer src.Close()
 	hdr := make([]byte, 4)
 	for {
@@ -145,26 +171,30 @@ func pump(t *tap, from, to int, src, dst net.Conn) {
 		}
 		pkt := &floodsub.Packet{}
 		if err := pkt.UnmarshalVT(body); err == nil {
-			t.add(tapRec{at: tick(), from: from, to: to, pkt: pkt})
+			t.add(tapRec{at: tick(), from: d.from, to: d.to, pkt: pkt})
 		}
-		if _, err := dst.Write(append(append([]byte{}, hdr...), body...)); err != nil {
+		if err := d.write(append(append([]byte{}, hdr...), body...)); err != nil {
 			return
 		}
 	}
 }
 
 // connect wires node a and node b with a tapped duplex pipe and registers the streams.
-func connect(t *tap, a, b *node, linkID uint64) {
+// It returns the two directions (a->b, b->a).
+func connect(t *tap, a, b *node, linkID uint64) (*pipeDir, *pipeDir) {
 	a1, a2 := net.Pipe() // a1: node a's end; a2: tap side
 	b1, b2 := net.Pipe()
-	go pump(t, a.idx, b.idx, a2, b2)
-	go pump(t, b.idx, a.idx, b2, a2)
+	ab := &pipeDir{from: a.idx, to: b.idx, dst: b2}
+	ba := &pipeDir{from: b.idx, to: a.idx, dst: a2}
+	go pump(t, ab, a2)
+	go pump(t, ba, b2)
 	mla := &fakes.MountedLink{UUID: linkID, Local: a.peerID(), Remote: b.peerID()}
 	mlb := &fakes.MountedLink{UUID: linkID, Local: b.peerID(), Remote: a.peerID()}
 	a.ps.AddPeerStream(pubsub.PeerLinkTuple{PeerID: b.peerID(), LinkID: linkID}, true,
 		&fakes.MountedStream{Strm: &fakes.Stream{Conn: a1}, Proto: floodsub.FloodSubID, Peer: b.peerID(), Lnk: mla})
 	b.ps.AddPeerStream(pubsub.PeerLinkTuple{PeerID: a.peerID(), LinkID: linkID}, false,
 		&fakes.MountedStream{Strm: &fakes.Stream{Conn: b1}, Proto: floodsub.FloodSubID, Peer: a.peerID(), Lnk: mlb})
+	return ab, ba
 }
 
 // harnessPeer is a harness-driven peer attached to a real node through AddPeerStream.
@@ -306,4 +336,10 @@ func quiesce(count func() int) {
 			return
 		}
 	}
+}
+
+// publishFrom publishes data on a channel from node n (through the concrete FloodSub type).
+func publishFrom(n *node, ch string, data []byte) error {
+	fs := n.ps.(*floodsub.FloodSub)
+	return fs.Publish(n.ctx, ch, gen.Key(n.key), data)
 }
